@@ -15,6 +15,7 @@ structure Generated (k0 : Key) (d : Desc) (rb : Bytes) : Prop where
   hf : k0.hf = d.hashFn
   desc : k0.desc = d
   skSeed : k0.skSeed = rb.take 32
+  skPRF : k0.skPRF = (rb.drop 32).take 32
   pubSeed : k0.pubSeed = (rb.drop 64).take 32
   root : k0.root = (Bds.treeHashSetup (opsFor hashOf d.hashFn (rb.take 32) ((rb.drop 64).take 32)) d.height).2
   bds : k0.bds = (Bds.treeHashSetup (opsFor hashOf d.hashFn (rb.take 32) ((rb.drop 64).take 32)) d.height).1
@@ -33,9 +34,14 @@ theorem generated_of_init (d : Desc) (seed : Bytes) (k0 : Key) (hs : (shake256 s
   generalize hR : (Bds.treeHashSetup (opsFor hashOf d.hashFn (rb.take 32) ((rb.drop 64).take 32)) d.height).2 = root at *
   have e4 : (zeros 4 ++ rb ++ root).drop 4 = rb ++ root := by
     rw [List.append_assoc, List.drop_left' (by simp [zeros])]
-  refine ⟨rfl, rfl, rfl, ?_, ?_, ?_, rfl, ?_⟩
+  refine ⟨rfl, rfl, rfl, ?_, ?_, ?_, ?_, rfl, ?_⟩
   · simp only [Key.skSeed]
     rw [e4, List.take_append_of_le_length (by omega)]
+  · simp only [Key.skPRF]
+    have : (zeros 4 ++ rb ++ root).drop 36 = rb.drop 32 ++ root := by
+      have : (36 : Nat) = 4 + 32 := rfl
+      rw [this, ← List.drop_drop, e4, List.drop_append_of_le_length (by omega)]
+    rw [this, List.take_append_of_le_length (by simp; omega)]
   · simp only [Key.pubSeed]
     have : (zeros 4 ++ rb ++ root).drop 68 = rb.drop 64 ++ root := by
       have : (68 : Nat) = 4 + 64 := rfl
@@ -61,7 +67,7 @@ theorem keyAt_fields (k0 : Key) (i : Nat) :
 
 /-- **Verify(msg, Sign(msg), PK) = true** at index `i` of a key of height `h`, for every seed, hash function
 (32-byte output), message — given the label-level whole-life check of that height -/
-theorem verify_sign_at (h : Nat) (hc : checkAll h = true) (hlen : ∀ hf x, (hashOf hf x).length = 32)
+theorem verify_sign_at (h : Nat) (hc : TraversalCorrect h) (hlen : ∀ hf x, (hashOf hf x).length = 32)
     (k0 : Key) (d : Desc) (rb : Bytes) (hrb : rb.length = 96) (hg : Generated hashOf k0 d rb)
     (hh : d.height = h) (h4 : 4 ≤ h) (heven : h % 2 = 0) (h30 : h ≤ 30)
     (hst : d.sigType = 0) (hhf : supportedHash d.hashFn = true) (haf : d.addrFmt < 16)
